@@ -484,9 +484,10 @@ def canaries(ctx):
     # the sentinel itself: a loop inside monitored code must trip the budget
     sentinel.arm(50)
     tripped = False
+    valid = base(ctx, 0)
     try:
-        for _ in range(100000):
-            ctx.iso._get_field_length({'field_type': 'LLVAR'})
+        for _ in range(1000):
+            ctx.iso.loads(valid[3], encoding=valid[1], iso_config=msgwork.cfg_of(valid[0]), hex_bitmap=valid[2])
     except sentinel.StepBudgetExceeded:
         tripped = True
     finally:
